@@ -3,7 +3,11 @@ use std::sync::Arc;
 
 use serde_json::json;
 
-use crate::adapter::{execute, panic_signature, ExecOutcome, GraphAdapter};
+use crate::adapter::{compile, execute, panic_signature, Compiled, ExecOutcome, GraphAdapter};
+use crate::model::Ty;
+use crate::qast::{EKind, QFilter, QScope, Query, Rhs, Sel};
+use crate::rng::Rng;
+use crate::val::{Op, ALL_OPS};
 use crate::case::{shrink, witness_from_case, Case, Report};
 use crate::qgen::GenCfg;
 use crate::stream::{ctx_from_case, run_stream, CaseCtx, StreamCfg};
@@ -61,6 +65,149 @@ pub fn handle(report: &mut Report, ctx: &CaseCtx) {
     }
 }
 
+// ------------------------------------------------------------------------------------------------
+// "type-confused" sub-stream: the property is conditional on the frontend ACCEPTING the query, not on
+// the query being well-typed by the documented rules. A valid generated query gets 1-2 of its filters
+// re-targeted (any of the 20 operators on any operand; a tag operand swapped for another tag of the
+// query); whatever the real frontend still accepts is executed with arguments that fit the types the
+// compiled query itself declares. Rejections are counted; an accepted query must run without panicking.
+// ------------------------------------------------------------------------------------------------
+
+fn collect_tag_names(s: &QScope, out: &mut Vec<String>) {
+    for sel in &s.sels {
+        match sel {
+            Sel::Prop(p) => {
+                for (i, t) in p.tags.iter().enumerate() {
+                    let _ = i;
+                    out.push(t.clone().unwrap_or_else(|| p.local_name().to_string()));
+                }
+            }
+            Sel::Edge(e) => {
+                if let EKind::Fold(Some(c)) = &e.kind {
+                    out.extend(c.tags.iter().cloned());
+                }
+                collect_tag_names(&e.child, out);
+            }
+        }
+    }
+}
+
+fn for_each_filter(s: &mut QScope, f: &mut dyn FnMut(&mut QFilter)) {
+    for sel in s.sels.iter_mut() {
+        match sel {
+            Sel::Prop(p) => p.filters.iter_mut().for_each(|x| f(x)),
+            Sel::Edge(e) => {
+                if let EKind::Fold(Some(c)) = &mut e.kind {
+                    c.filters.iter_mut().for_each(|x| f(x));
+                }
+                for_each_filter(&mut e.child, f);
+            }
+        }
+    }
+}
+
+pub fn confuse(q: &Query, rng: &mut Rng) -> Option<Query> {
+    let mut q = q.clone();
+    let mut n = 0usize;
+    for_each_filter(&mut q.root, &mut |_| n += 1);
+    if n == 0 {
+        return None;
+    }
+    let mut tags = vec![];
+    collect_tag_names(&q.root, &mut tags);
+    let picks: Vec<usize> = (0..rng.range(1, 2)).map(|_| rng.below(n)).collect();
+    let mut i = 0usize;
+    let mut fresh = 0usize;
+    let mut changes: Vec<(Op, u64, u64)> = picks.iter().map(|_| (*rng.pick(&ALL_OPS), rng.next_u64(), rng.next_u64())).collect();
+    for_each_filter(&mut q.root, &mut |f| {
+        if let Some(k) = picks.iter().position(|p| *p == i) {
+            let (op, r1, r2) = changes[k];
+            changes[k].1 = r1.rotate_left(7);
+            if r1 % 3 != 0 {
+                f.op = op;
+            }
+            if f.op.unary() {
+                f.rhs = None;
+            } else if f.rhs.is_none() {
+                fresh += 1;
+                f.rhs = Some(Rhs::Var(format!("cv{fresh}")));
+            } else if !tags.is_empty() && r2 % 3 == 0 {
+                f.rhs = Some(Rhs::Tag(tags[(r2 / 3) as usize % tags.len()].clone()));
+            }
+        }
+        i += 1;
+    });
+    Some(q)
+}
+
+fn confused_case(report: &mut Report, ctx: &CaseCtx, rng: &mut Rng) {
+    let Some(q2) = confuse(&ctx.g.query, rng) else { return };
+    if q2 == ctx.g.query {
+        return;
+    }
+    let text = q2.render();
+    report.count("confused_queries_generated");
+    let compiled = match compile(&ctx.schema, &text) {
+        Compiled::Ok(c) => c,
+        Compiled::Rejected(k) => {
+            report.count("confused_rejected_by_frontend");
+            report.set_insert("confused_rejection_kinds", &k);
+            return;
+        }
+        Compiled::Panicked(_) => {
+            report.count("confused_frontend_panicked_charged_to_C10");
+            return;
+        }
+    };
+    report.count("confused_accepted_by_frontend");
+    // arguments that fit the types the compiled query itself declares
+    let mut args = crate::qast::Args::new();
+    for (name, ty) in compiled.ir_query.variables.iter() {
+        let Some(t) = Ty::parse(&ty.to_string()) else { return };
+        let v = match ctx.args.get(name.as_ref()) {
+            Some(v) if crate::val::fits(&t, &crate::val::Val::from_fv(v)) && rng.chance(70) => v.clone(),
+            _ => {
+                if t.base == "String" && !t.is_list() && rng.chance(40) {
+                    trustfall_core::ir::FieldValue::String((*rng.pick(&["(", "[", "a.*", "", "\\", "é"])).into())
+                } else {
+                    crate::qgen::value_fitting(rng, &t)
+                }
+            }
+        };
+        args.insert(name.to_string(), v);
+    }
+    report.announce(&format!("{text}\nargs: {args:?}"));
+    let adapter = Arc::new(GraphAdapter::new(ctx.model.clone(), ctx.ds.clone()));
+    if !crate::adapter::cost_probe(&ctx.model, &ctx.ds, &compiled, &args, 300_000) {
+        report.count("confused_skipped_over_cost_budget");
+        return;
+    }
+    match execute(adapter, compiled, &args, 200_000) {
+        ExecOutcome::Rows(_) => {
+            report.count("confused_executed_ok");
+            report.count("executed_ok");
+        }
+        ExecOutcome::ArgsRejected(_) => report.count("confused_args_rejected"),
+        ExecOutcome::Panicked { info, rows_before } => {
+            report.count("panicked");
+            let sig = format!("C09:{}", panic_signature(&info));
+            if report.already_reported(&sig) {
+                report.count("violations_duplicate_signature");
+                return;
+            }
+            let case = Case { model: (*ctx.model).clone(), ds: (*ctx.ds).clone(), query: q2, args };
+            let small = shrink(&case, &sig, 300, signature_of_case);
+            let what = format!(
+                "accepted (not well-typed by the documented rules) query panicked at {} after {} rows: {}",
+                info.location,
+                rows_before,
+                info.message.chars().take(300).collect::<String>()
+            );
+            report.violation(witness_from_case("C09", "c09", &sig, &what, report.seed, ctx.index, &small));
+        }
+    }
+}
+
 pub fn run(report: &mut Report, seed: u64, cases: u64) {
     let mut scfg = StreamCfg::new(cases);
     scfg.cfg_for_block = Box::new(|b| {
@@ -69,7 +216,11 @@ pub fn run(report: &mut Report, seed: u64, cases: u64) {
         c.list_ordering = b % 3 == 0;
         c
     });
-    run_stream(report, seed, &scfg, handle);
+    let mut rng = Rng::new(seed ^ 0xc09c09);
+    run_stream(report, seed, &scfg, |rep, ctx| {
+        handle(rep, ctx);
+        confused_case(rep, ctx, &mut rng);
+    });
 }
 
 pub fn replay(case: &Case) -> Result<Option<(String, String)>, String> {
